@@ -393,6 +393,17 @@ def rule_window(ck: Check, repo: Repo, folder: Folder) -> None:
                     repo.loc(dfn))
     if not okr:
         r.violation(dq, "CRLF not folded", "CRLF line endings must be folded to LF before tag search", repo.loc(dfn))
+    # the licence/contributor patterns know only \n as a line break (MULTILINE ^/$; `.` matches \r), while the copyright
+    # scan uses str.splitlines(): a lone CR must be folded as well or a tag's value runs on over the following lines
+    okc = any([ast.unparse(a) for a in c.args] == ["'\\r'", "'\\n'"] for c in rep) or \
+        any(isinstance(c.func, ast.Attribute) and c.func.attr == "splitlines" for c in calls) or \
+        any(ast.unparse(c.func) in ("re.sub",) and "\\r" in ast.unparse(c.args[0]) for c in calls if c.args)
+    r.instance(dq + ":cr", {"lone_cr_folded": okc})
+    if not okc:
+        r.violation(dq, "lone CR line endings are not folded",
+                    "in a file with CR-only line endings `(.*?)…$` of the licence tag pattern runs to the end of the text (the"
+                    " value swallows every following line), the expression becomes unparseable and the whole file contributes"
+                    " nothing; the copyright scan (splitlines) would have split on CR", repo.loc(dfn))
 
 
 def rule_notice_per_line(ck: Check, repo: Repo) -> None:
